@@ -15,7 +15,9 @@ TRUTHS = (-2.0, -1.0, 0.5, 1.0, 2.0, 1e6)
 OFFSETS = (-10, -1, 0, 1, 10, 50)
 PAIRS = tuple(itertools.product(TRUTHS, OFFSETS))
 SCALES = (1, -3, 1e-3, 7)
-SHAPES = ("vector", "column")
+# both arguments (n,), (n,1), (1,n), (n/2,2); one of them (n,) and the other
+# (n,1): the same n values element by element in every layout
+SHAPES = ("vector", "column", "row", "matrix", "pred-column", "truth-column")
 FUNCS = ("mape", "bias")
 EPS = 2.0 ** -52
 
@@ -50,6 +52,14 @@ def evaluate(func, order, scale, shape):
     pred = np.array([t * (1 + p / 100) for t, p in order]) * scale
     if shape == "column":
         truth, pred = truth.reshape(-1, 1), pred.reshape(-1, 1)
+    elif shape == "row":
+        truth, pred = truth.reshape(1, -1), pred.reshape(1, -1)
+    elif shape == "matrix":
+        truth, pred = truth.reshape(-1, 2), pred.reshape(-1, 2)
+    elif shape == "pred-column":
+        pred = pred.reshape(-1, 1)
+    elif shape == "truth-column":
+        truth = truth.reshape(-1, 1)
     try:
         return getattr(scores, func)(pred, truth)
     except Exception as exc:
@@ -75,8 +85,8 @@ def check_case(func, order, scale, shape, cache):
                 repr(got)[:200], "")
     if np.ndim(got) != 0:
         return (func + "/result-not-scalar", [], list(np.shape(got)), "")
-    if shape == "column":
-        what, ref = "differs-for-column-vectors", \
+    if shape != "vector":
+        what, ref = "differs-for-layout-" + shape, \
             value(func, order, scale, "vector")
     elif order != canon:
         what, ref = "order-dependent", value(func, canon, scale, shape)
@@ -104,6 +114,8 @@ def run_shard(res, shard, report):
         cache = {}
         for order in sorted(set(itertools.permutations(group))):
             for func, scale, shape in itertools.product(FUNCS, SCALES, SHAPES):
+                if shape == "matrix" and len(order) % 2:
+                    continue
                 res.case(nontrivial=any(q != 0 for _, q in order))
                 case = dict(part="percent", func=func, pairs=order,
                             scale=scale, shape=shape)
